@@ -110,8 +110,11 @@ func perturb(rq wproto.Req, rng *rand.Rand) wproto.Req {
 // c10Sig: mismatches on documents that mix notations (grey zone of C02) are one class of finding: the
 // shared parser state makes the massive-mode result depend on the parse order (ParserShared.tla).
 func c10Sig(d *DocState, name, kind, doc string) string {
-	if d.Verdict == "grey" && (d.Why == "heading-after-bullet-root" || d.Why == "other-indent-char") {
-		return "massive:schedule-dependent-parse:grey/" + d.Why
+	switch {
+	case d.Verdict == "grey" && d.Why == "heading-after-bullet-root":
+		return "massive:schedule-dependent-parse:bullet-roots-before-heading"
+	case (d.Verdict == "grey" && d.Why == "other-indent-char") || (d.Verdict == "reject" && d.Why == "mixed-across-lines"):
+		return "massive:schedule-dependent-parse:mixed-indent-chars"
 	}
 	return name + ":" + kind + ":" + inputClass(splitLines(doc))
 }
